@@ -435,8 +435,11 @@ TAStep(ev) ==
   LET obs == ev.obs
       rel == TA!Relevant(ev)
       live == {h \in tr_st : ~h.stop}
-      Good == {<<h, D>> \in live \X SUBSET rel : LET x == TA!Step(ev, h.ts, D)
-                                                  IN TAMatches(obs, x) \/ (x.opaque # "" /\ InFamily(obs.out))}
+      \* deviations that change only what later events can see are tried even when ECMA-262 explains this event
+      Hidden == IF ev.op = "subarray" THEN SUBSET rel ELSE {{}}
+      Ok(h, D) == LET x == TA!Step(ev, h.ts, D) IN TAMatches(obs, x) \/ (x.opaque # "" /\ InFamily(obs.out))
+      Plain == {<<h, D>> \in live \X Hidden : Ok(h, D)}
+      Good == IF \E p \in Plain : p[2] = {} THEN Plain ELSE {<<h, D>> \in live \X SUBSET rel : Ok(h, D)}
       New == {LET x == TA!Step(ev, p[1].ts, p[2])
               IN [devs |-> p[1].devs \cup p[2] \cup (IF TAMatches(obs, x) THEN {} ELSE {x.opaque}), ts |-> x.ts, stop |-> ~TAMatches(obs, x)] : p \in Good}
              \cup {h \in tr_st : h.stop}
